@@ -354,3 +354,56 @@ def init_encodings_like_server():
 
 
 init_encodings_like_server()
+
+
+def py_normpath(path):
+    """Pure-Python posixpath.normpath (CPython 3.11's implementation; 3.12 moved it to C, which
+    cannot take symbolic strings).  Validated against the real function at import."""
+    sep, empty, dot, dotdot = "/", "", ".", ".."
+    if path == empty:
+        return dot
+    initial_slashes = path.startswith(sep)
+    if initial_slashes and path.startswith(sep * 2) and not path.startswith(sep * 3):
+        initial_slashes = 2
+    comps = path.split(sep)
+    new_comps = []
+    for comp in comps:
+        if comp in (empty, dot):
+            continue
+        if comp != dotdot or (not initial_slashes and not new_comps) or (new_comps and new_comps[-1] == dotdot):
+            new_comps.append(comp)
+        elif new_comps:
+            new_comps.pop()
+    comps = new_comps
+    path = sep.join(comps)
+    if initial_slashes:
+        path = sep * initial_slashes + path
+    return path or dot
+
+
+def _validate_normpath():
+    import itertools
+    import posixpath
+
+    for n in range(0, 6):
+        for t in itertools.product("./a", repeat=n):
+            s = "".join(t)
+            assert py_normpath(s) == posixpath.normpath(s), s
+
+
+_validate_normpath()
+
+
+def install_py_normpath():
+    """Route os.path.normpath inside pygopherd.handlers.UMN to the pure-Python model."""
+    import os
+
+    from pygopherd.handlers import UMN
+
+    class _P:
+        def __getattr__(self, n):
+            return getattr(os.path, n)
+
+    p = _P()
+    p.normpath = py_normpath
+    UMN.os = ns(path=p)
